@@ -176,7 +176,8 @@ pub fn healthy() -> Vec<Probe> {
 pub struct Case {
     pub label: String,
     pub probes: Vec<Probe>,
-    /// what the generator did before this test_timer call: 0 nothing (fresh), 1 a complete test_timer
+    /// what the generator did before this test_timer call: 0 nothing (fresh), 3 a successful test_timer on
+    /// a healthy timer, 1 a complete test_timer
     /// on the same probe pattern, 2 one next_u64
     pub before: u8,
 }
@@ -393,7 +394,17 @@ pub fn cases(thorough: bool) -> Vec<Case> {
         let extra: Vec<Case> = cs
             .iter()
             .filter(|c| c.label.starts_with("const-delta") || c.label.starts_with("a then 2a") || c.label.starts_with("mult100") || c.label.starts_with("wrap-tie") || c.label.starts_with("staircase") || c.label.starts_with("grid") || c.label == "healthy")
-            .flat_map(|c| [1u8, 2].into_iter().map(move |b| Case { before: b, label: format!("{} [after {}]", c.label, if b == 1 { "a previous test_timer" } else { "a next_u64" }), probes: c.probes.clone() }))
+            .flat_map(|c| {
+                [1u8, 2, 3].into_iter().map(move |b| Case {
+                    before: b,
+                    label: format!("{} [after {}]", c.label, match b {
+                        1 => "a previous test_timer",
+                        2 => "a next_u64",
+                        _ => "a previous successful test_timer on a healthy timer",
+                    }),
+                    probes: c.probes.clone(),
+                })
+            })
             .collect();
         cs.extend(extra);
     }
@@ -462,12 +473,18 @@ pub fn eval_case(reg: &dyn Registry, c: &Case) -> CaseOutcome {
                     readings.extend(pre.iter().map(|t| t + (1 << 40)));
                     readings.len()
                 }
+                3 => {
+                    // a complete test_timer run on the healthy script (which returns Ok)
+                    let h = build(&healthy());
+                    readings.extend_from_slice(&h[..1601]);
+                    1601
+                }
                 _ => 0,
             };
             readings.extend_from_slice(&own);
             let script = TimerScript::new(readings.clone());
             let mut g = reg.jitter(script.clone());
-            if c.before == 1 {
+            if c.before == 1 || c.before == 3 {
                 let _ = guarded(|| g.jitter().unwrap().test_timer());
             } else if c.before == 2 {
                 let _ = guarded(|| g.next_u64());
